@@ -263,6 +263,11 @@ func (mbs *metadataPartStorage) createRangeReader(ctx context.Context, tx databa
 		if rangeEndInPart < rangeStartInPart {
 			return nil, fmt.Errorf("invalid part range computed")
 		}
+		if rangeEndInPart == rangeStartInPart {
+			// Nothing to read from this part (an empty part): do not open it.
+			partsSizeUntilNow = partEnd
+			continue
+		}
 
 		store, err := mbs.partStores.ByName(part.StoreName)
 		if err != nil {
